@@ -153,6 +153,180 @@ def apply_rewrites(text, required, optional, log, fnq):
     return text
 
 
+def _enclosing_open(text, mask, pos):
+    """index of the nearest '{' (in code) that encloses pos, or -1"""
+    d = 0
+    j = pos - 1
+    while j >= 0:
+        if mask[j]:
+            c = text[j]
+            if c == '}':
+                d += 1
+            elif c == '{':
+                if d == 0:
+                    return j
+                d -= 1
+        j -= 1
+    return -1
+
+
+def _block_header(text, mask, bopen):
+    """(start, header text) of the statement head that owns the block opening at bopen:
+    back to the previous ';', '{' or '}' in code at paren depth 0"""
+    j = bopen - 1
+    pd = 0
+    while j >= 0:
+        if mask[j]:
+            c = text[j]
+            if c in ')]':
+                pd += 1
+            elif c in '([':
+                pd -= 1
+            elif pd == 0 and c in ';{}':
+                break
+        j -= 1
+    # comments in between are blanked; the start is moved to the first code character
+    h = ''.join(ch if mask[k] or ch == '\n' else ' ' for k, ch in enumerate(text[j + 1:bopen], j + 1))
+    st = j + 1
+    while st < bopen and (text[st].isspace() or not mask[st]):
+        st += 1
+    return st, h
+
+
+def _skip_ws(text, mask, k):
+    while k < len(text) and (text[k].isspace() or not mask[k]):
+        k += 1
+    return k
+
+
+def _chain_end(text, mask, bclose):
+    """bclose closes a block of an if / else chain: index just after the end of the whole chain"""
+    k = bclose + 1
+    while True:
+        j = _skip_ws(text, mask, k)
+        if text.startswith('else', j) and not (text[j + 4].isalnum() or text[j + 4] == '_'):
+            j = j + 4
+            # up to the next '{' at paren depth 0
+            pd = 0
+            while j < len(text):
+                if mask[j]:
+                    c = text[j]
+                    if c in '([':
+                        pd += 1
+                    elif c in ')]':
+                        pd -= 1
+                    elif pd == 0 and c == '{':
+                        break
+                j += 1
+            k = rs.match_close(text, mask, j) + 1
+            continue
+        return k
+
+
+CONT_RE = re.compile(r'\bcontinue\b')
+
+
+def continue_elim(text, log, fnq):
+    """R12: Verus has no `continue` in for-loops.  A `continue` that is the last statement of a guard
+    `if C { PRE continue; }` or of `let PAT = E else { continue; };`, with nothing left to execute in the loop
+    body after the statement's enclosing if-chains, is replaced by putting the rest of the block under `else`
+    (resp. under `if let`).  Same control flow; anything else is left as it is (Verus then stops: exit 2)."""
+    cnt = 0
+    skip_before = 0
+    while True:
+        mask = rs.code_mask(text)
+        c = -1
+        for mt in CONT_RE.finditer(text, skip_before):
+            if mask[mt.start()]:
+                c = mt.start()
+                break
+        if c < 0:
+            break
+        skip_before = c + 1
+        after = _skip_ws(text, mask, c + 8)
+        if after >= len(text) or text[after] != ';':
+            continue
+        # which loop does it belong to?
+        b = _enclosing_open(text, mask, c)
+        owner = None
+        bb = b
+        while bb >= 0:
+            hs, h = _block_header(text, mask, bb)
+            hn = h.strip()
+            if re.match(r"^('\w+\s*:\s*)?for\b", hn):
+                owner = ('for', bb)
+                break
+            if re.match(r"^('\w+\s*:\s*)?(while|loop)\b", hn):
+                owner = ('other', bb)
+                break
+            bb = _enclosing_open(text, mask, bb)
+        if owner is None or owner[0] != 'for':
+            continue
+        for_body = owner[1]
+        e0 = rs.match_close(text, mask, b)
+        if _skip_ws(text, mask, after + 1) != e0:
+            continue                      # not the last statement of its block
+        hs, h = _block_header(text, mask, b)
+        hn = ' '.join(h.split())
+        pre = text[b + 1:c]
+        if re.match(r'^if\b', hn):
+            nxt = _skip_ws(text, mask, e0 + 1)
+            if text.startswith('else', nxt):
+                continue
+            stmt_end = e0 + 1
+            kind = 'guard'
+        elif re.match(r'^let\b.*\belse$', hn) and not pre.strip():
+            nxt = _skip_ws(text, mask, e0 + 1)
+            if text[nxt] != ';':
+                continue
+            stmt_end = nxt + 1
+            kind = 'letelse'
+        else:
+            continue
+        P = _enclosing_open(text, mask, hs)
+        pe = rs.match_close(text, mask, P)
+        # tail check: nothing executes in the for body after block P
+        X = P
+        ok = True
+        while X != for_body:
+            xs, xh = _block_header(text, mask, X)
+            xhn = xh.strip()
+            if not re.match(r'^(if\b|else\b)', xhn):
+                ok = False
+                break
+            ce = _chain_end(text, mask, rs.match_close(text, mask, X))
+            parent = _enclosing_open(text, mask, xs)
+            # an `else` header starts after the '}' of the preceding if-block: climb to the real parent
+            while parent >= 0 and rs.match_close(text, mask, parent) < ce - 1:
+                parent = _enclosing_open(text, mask, parent)
+            if parent < 0 or _skip_ws(text, mask, ce) != rs.match_close(text, mask, parent):
+                ok = False
+                break
+            X = parent
+        if not ok:
+            continue
+        rest = text[stmt_end:pe]
+        # the closing brace of the new else / if-let block goes right before the closing brace of the enclosing block
+        ins_at = pe
+        if kind == 'guard':
+            if rest.strip():
+                text = text[:ins_at] + '} ' + text[ins_at:]
+                text = text[:c] + text[after + 1:e0] + '} else {' + text[e0 + 1:]
+            else:
+                text = text[:c] + text[after + 1:]
+        else:
+            text = text[:ins_at] + '} ' + text[ins_at:]
+            head = 'if ' + hn[:-len('else')].rstrip() + ' {'
+            removed = text[hs:stmt_end]
+            lead = re.match(r'\s*', removed).group(0)
+            text = text[:hs] + lead + head + '\n' * (removed.count('\n') - lead.count('\n')) + text[stmt_end:]
+        cnt += 1
+        skip_before = 0
+    if cnt:
+        log.append({'fn': fnq, 'rule': 'R12', 'from': 'continue; in tail position of a for-loop body', 'to': 'else { rest of the block } / if let', 'count': cnt})
+    return text
+
+
 def clause_lines(out, clauses, fnq, kind, indent, default_props, clause_index, loop=None):
     for c in clauses:
         cid = '%s.%s' % (fnq, c.id) if loop is None else '%s.loop%d.%s' % (fnq, loop, c.id)
@@ -178,6 +352,7 @@ def gen_fn(out, unit, f, sf, meta, probe):
     whole = src[sig_start:bclose + 1]
     sig_norm = rs.norm_ws(src[sig_start:(bopen if bopen is not None else bclose)])
     whole = apply_rewrites(whole, f.rewrites, unit.rewrites, meta['rewrites'], f.qual)
+    whole = continue_elim(whole, meta['rewrites'], f.qual)
     if bopen is not None:
         wmask = rs.code_mask(whole)
         pd0 = 0
@@ -231,6 +406,8 @@ def gen_fn(out, unit, f, sf, meta, probe):
              'sha': hashlib.sha256(src[sig_start:bclose + 1].encode()).hexdigest()[:16], 'loops': []}
     for a in f.extra_attrs:
         out.add('    ' + a, {'kind': 'attr', 'fn': fnq})
+    if f.stub:
+        out.add('    #[verifier::external_body] // contract imported from unit %s, proved there' % f.from_unit, {'kind': 'attr', 'fn': fnq})
     k = 0
     for l in sig.split('\n'):
         out.add(l, {'kind': 'sig', 'fn': fnq, 'src': (relfile, src_line0 + k)})
@@ -241,10 +418,14 @@ def gen_fn(out, unit, f, sf, meta, probe):
         clause_lines(out, f.requires, fnq, 'requires', '            ', default_props, ci)
     if f.ensures:
         out.add('        ensures', {'kind': 'kw', 'fn': fnq})
-        clause_lines(out, f.ensures, fnq, 'ensures', '            ', default_props, ci)
+        clause_lines(out, f.ensures, fnq, 'assumed' if f.stub else 'ensures', '            ', default_props, ci)
     if f.decreases:
         out.add('        decreases %s,' % f.decreases, {'kind': 'fn-decreases', 'fn': fnq, 'clause': fnq + '.decreases', 'props': default_props})
         ci[fnq + '.decreases'] = {'fn': fnq, 'kind': 'decreases', 'props': default_props, 'text': f.decreases}
+    if f.stub:
+        out.add('    { unimplemented!() }', {'kind': 'sig', 'fn': fnq})
+        meta['imported_stubs'].append({'fn': fnq, 'from_unit': f.from_unit, 'dropped_requires': f.dropped_requires, 'sha': finfo['sha']})
+        return
     if f.nobody:
         out.add('    ;', {'kind': 'sig', 'fn': fnq})
         finfo['gen_end'] = len(out.lines)
@@ -296,7 +477,8 @@ def gen_fn(out, unit, f, sf, meta, probe):
         edits.append((lb, 0, 'insert', tmp, None))
         if probe:
             p = Out()
-            p.add('            proof { assert(false); } // @vacuity-probe', {'kind': 'probe', 'fn': fnq, 'probe': '%s.loop%d' % (fnq, ls.ordinal)})
+            meta['probe_seq'] = meta.get('probe_seq', 0) + 1
+            p.add('            proof { if vx_probe(%d) { assert(false); } } // @vacuity-probe' % meta['probe_seq'], {'kind': 'probe', 'fn': fnq, 'probe': '%s.loop%d' % (fnq, ls.ordinal)})
             edits.append((lb + 1, 0, 'insert', p, None))
         if ls.iter:
             # R9: name the ghost iterator
@@ -361,7 +543,8 @@ def gen_fn(out, unit, f, sf, meta, probe):
             edits.append((le + 1, 2, 'insert', tmp, None))
     if probe:
         p = Out()
-        p.add('        proof { assert(false); } // @vacuity-probe', {'kind': 'probe', 'fn': fnq, 'probe': fnq + '.entry'})
+        meta['probe_seq'] = meta.get('probe_seq', 0) + 1
+        p.add('        proof { if vx_probe(%d) { assert(false); } } // @vacuity-probe' % meta['probe_seq'], {'kind': 'probe', 'fn': fnq, 'probe': fnq + '.entry'})
         edits.append((1, 1, 'insert', p, None))
     # emit body with edits
     edits.sort(key=lambda e: (e[0], e[1]))
@@ -454,7 +637,7 @@ def copy_item(out, sf, kind, name, mode, meta):
 
 def generate(unit, repo, probe=False):
     """Returns (text, tags, meta)."""
-    meta = {'unit': unit.name, 'repo': repo, 'rewrites': [], 'functions': [], 'clauses': {}, 'items': [], 'probes': [], 'lemmas': [], 'dropped_loop_contracts': []}
+    meta = {'unit': unit.name, 'repo': repo, 'rewrites': [], 'functions': [], 'clauses': {}, 'items': [], 'probes': [], 'lemmas': [], 'dropped_loop_contracts': [], 'imported_stubs': []}
     for (f, txt) in unit.expects:
         if txt not in SrcFile.get(os.path.join(repo, 'src', f)).src:
             raise GenError('expected text no longer in %s: %r' % (f, txt))
@@ -469,6 +652,9 @@ def generate(unit, repo, probe=False):
     for l in unit.prelude:
         out.add(l, {'kind': 'prelude'})
     if probe:
+        # a probe is `if vx_probe(k) { assert(false); }`: it must fail (the point is reachable) and, unlike a bare
+        # assert(false), leaves nothing behind that could make later probes of the same function pass
+        out.add('pub uninterp spec fn vx_probe(k: int) -> bool;', {'kind': 'prelude-probe'})
         for l in unit.probes:
             out.add(l, {'kind': 'prelude-probe'})
     # group trait impl fns / inherent fns by header, emitting at first occurrence
@@ -498,7 +684,7 @@ def generate(unit, repo, probe=False):
             it = payload
             if it[0] == 'copy':
                 sf = SrcFile.get(os.path.join(repo, 'src', it[1]))
-                copy_item(out, sf, it[2], it[3], 'noderive' if unit.noderive else it[4], meta)
+                copy_item(out, sf, it[2], it[3], it[4] if it[4] == 'derive' else ('noderive' if unit.noderive else it[4]), meta)
             elif it[0] == 'text':
                 for l in it[1]:
                     out.add(l, {'kind': 'prelude'})
